@@ -201,7 +201,7 @@ MC = {
     "MC_Placement": {"spec": "MC_Placement", "must_take": ["Statement"], "timeout": 900},
 }
 HOOK_COMMITS = ["d90b018"]
-SETUP_MC = []
+SETUP_MC = ["MC_Codec", "MC_Placement", "MC_Planner"]
 NOT_YET = {}
 
 
